@@ -43,13 +43,14 @@ def worker(k):
         except subprocess.TimeoutExpired:
             out, rc = "", -1
         sigs = re.findall(r"^VIOLATION .*signature=(\S+)", out, re.M)
+        occ = [int(x) for x in re.findall(r"^VIOLATION .*occurrences=(\d+)", out, re.M)]
         got = rc == 1 and bool(sigs)
         with lock:
             done[0] += 1
             tag = "ok" if got == expect else "CHANGED"
             if got != expect:
                 bad.append((sid, rc, sigs[:3]))
-            print(f"[{done[0]}/{total} {int(time.time()-t0)}s] {sid} {tag} rc={rc} {'reported' if got else 'not reported'} {sigs[:2]}", flush=True)
+            print(f"[{done[0]}/{total} {int(time.time()-t0)}s] {sid} {tag} rc={rc} {'reported' if got else 'not reported'} max_occurrences={max(occ) if occ else 0} {sigs[:2]}", flush=True)
 
 ts = [threading.Thread(target=worker, args=(k,)) for k in range(jobs)]
 for t in ts: t.start()
